@@ -29,7 +29,7 @@ PATHS = ["text", "code_inline", "code_block", "fence.content", "fence.info", "li
 def floors(tier):
     f = {"renders": 100000 if tier == "quick" else 2000000, "input_has_meta": 50000, "tag.a": 5000, "tag.img": 5000, "tag.code": 5000,
          "attr.a.title": 1000, "attr.img.alt": 5000, "attr.code.class": 1000, "attr.ol.start": 500, "attr.th.style": 200,
-         "escaped_in_text": 20000, "wl.delimiter_words": 400000}
+         "escaped_in_text": 20000, "wl.delimiter_words": 400000, "history.fresh_instances": 15, "history.escaped_probes": 15}
     for p in PATHS:
         f["meta_via." + p] = 300
     return f
@@ -107,8 +107,48 @@ def check_case(ctx, case, minimize=True):
     ctx.violation(key, f"{msg} | conf={conf} src={c['src']!r} html={html[:300]!r}", c)
 
 
+HISTORY_PROBE = "<script>alert(1)</script>\n\n<div onclick=x>\n\na <b>c</b> <!-- d --> <?p?>\n\n```\"><i>\n<u>\n```\n"
+
+
+def history_case(ctx, case):
+    """a preset that documents html off gives html off, whatever other instances this process built before (same preset with
+    html on through the constructor, configure(), set() or an assignment to options); the probe's raw HTML must come out escaped"""
+    from markdown_it import MarkdownIt
+    ctx.count("evaluations")
+    ctx.current = case
+    preset, route = case["preset"], case["route"]
+    if route == "ctor":
+        other = MarkdownIt(preset, {"html": True})
+    elif route == "ctor_more":
+        other = MarkdownIt(preset, {"html": True, "breaks": True, "xhtmlOut": False, "langPrefix": "x-"})
+    elif route == "configure":
+        other = MarkdownIt("commonmark")
+        other.configure(preset, {"html": True})
+    elif route == "set":
+        other = MarkdownIt(preset)
+        other.set({"html": True})
+    else:
+        other = MarkdownIt(preset)
+        other.options["html"] = True
+    other.render(HISTORY_PROBE)
+    md = MarkdownIt(preset)
+    stats = collections.Counter()
+    html = md.render(HISTORY_PROBE)
+    ctx.count("history.fresh_instances")
+    err = scan(html, stats)
+    if err is None and ("<script" in html or "<div" in html or "<b>" in html or "<i>" in html):
+        err = ("raw-html-after-history", "raw HTML of the input appears in the output")
+    if err is not None:
+        ctx.violation("html-off-preset-after-history:" + err[0], f"MarkdownIt({preset!r}) built after another instance had html switched on via {route}: {err[1]} | html={html[:200]!r}", case)
+    elif stats:
+        ctx.count("history.escaped_probes")
+
+
 def replay(ctx, case):
-    check_case(ctx, case, minimize=False)
+    if case.get("kind") == "history":
+        history_case(ctx, case)
+    else:
+        check_case(ctx, case, minimize=False)
 
 
 PAYLOADS = ['<script>alert(1)</script>', '"><img src=x onerror=1>', "&lt;&#60;&#x3c;\\<", "a\" onclick=\"x", "&quot;&#34;", "<!-- x -->", "</code></pre><b>",
@@ -151,6 +191,10 @@ def run(ctx):
 
     def sampler(r):
         return C.sample(r, html=False)
+
+    for preset in ("js-default", "zero", "default"):
+        for route in ("ctor", "ctor_more", "configure", "set", "assign"):
+            history_case(ctx, {"kind": "history", "preset": preset, "route": route})   # in every shard: the history is per process
 
     from vf import families as F
     for i, fam in enumerate(sorted(F.FAMILIES)):
